@@ -86,6 +86,23 @@ def altRegex : List (Int × Regex) → Regex
   | [(_, r)] => r
   | (_, r) :: rest => .alt r (altRegex rest)
 
+/-- the `i` flag: every class leaf is closed under simple case folding before negation
+(crates/generate/src/prepare_grammar/pattern.rs); only the letters the explorer uses are folded:
+ASCII letters, é/É, λ/Λ -/
+def foldRanges (rs : List (Nat × Nat)) : List (Nat × Nat) :=
+  rs ++ rs.flatMap (fun (lo, hi) =>
+    let lower := if max lo 97 ≤ min hi 122 then [(max lo 97 - 32, min hi 122 - 32)] else []
+    let upper := if max lo 65 ≤ min hi 90 then [(max lo 65 + 32, min hi 90 + 32)] else []
+    let pair (a b : Nat) := (if lo ≤ a && a ≤ hi then [(b, b)] else []) ++ (if lo ≤ b && b ≤ hi then [(a, a)] else [])
+    lower ++ upper ++ pair 0xe9 0xc9 ++ pair 0x3bb 0x39b)
+
+def foldCase : Regex → Regex
+  | .cls rs neg => .cls (foldRanges rs) neg
+  | .seq a b => .seq (foldCase a) (foldCase b)
+  | .alt a b => .alt (foldCase a) (foldCase b)
+  | .star a => .star (foldCase a)
+  | r => r
+
 def parseLit (cs : Array Char) : Option (List Nat) :=
   if cs.size > 0 && cs[0]! == 'L' then
     some (((String.ofList cs.toList).drop 1).toString.splitOn "." |>.filter (· != "") |>.map hexNat)
@@ -102,8 +119,10 @@ def parseSet (id spec : String) : SetInfo :=
         let a := ",".intercalate ast
         let cs := a.toList.toArray
         let alts := parseAlts a
-        (({ re := (if alts.isEmpty then (parseRe cs 0).1 else altRegex alts), prec := p.toInt?.getD 0,
-            isString := natOf s % 2 == 1, immediate := natOf s / 2 == 1, alts := alts } : Token),
+        let ci := natOf s / 4 % 2 == 1
+        let base := if alts.isEmpty then (parseRe cs 0).1 else altRegex alts
+        (({ re := (if ci then foldCase base else base), prec := p.toInt?.getD 0,
+            isString := natOf s % 2 == 1, immediate := natOf s / 2 % 2 == 1, alts := alts } : Token),
          (if natOf s % 2 == 1 then parseLit cs else none))
       | _ => (default, none))
     { id := id, toks := toks.map (·.1), texts := toks.map (·.2), word := word, extras := extras }
@@ -193,7 +212,8 @@ def parseModeSet (id spec : String) : SetInfo :=
     let toks := rest.map (fun t => match t.splitOn "," with
       | p :: s :: mask :: ast =>
         let cs := (",".intercalate ast).toList.toArray
-        (({ re := (parseRe cs 0).1, prec := p.toInt?.getD 0, isString := s == "1" } : Token), natOf mask)
+        let base := (parseRe cs 0).1
+        (({ re := (if natOf s / 4 % 2 == 1 then foldCase base else base), prec := p.toInt?.getD 0, isString := natOf s % 2 == 1 } : Token), natOf mask)
       | _ => (default, 0))
     { id := id, toks := toks.map (·.1), masks := toks.map (·.2), follow := follow, texts := [], word := word, reserved := reserved, extras := extras }
   | _ => {}
